@@ -15,7 +15,11 @@
     message does not have); without a bundle, or without a translation, by `Msg.renderSource ρ ν R`.
   * `print_var_writes`, `htmlTag_writes`: prints of variables (no directives) and html tags are such writers,
     with `ρ` = the escaped / plain text of the variable's value in the current scope.
-  * the corollaries of C11 restated over `execCmd`: `msg_translation_renders_segments`, `msg_reorder_reorders`.
+  * the corollaries of C11 restated over `execCmd`: `msg_translation_renders_segments`, `msg_reorder_reorders`,
+    `msg_unknown_placeholder`, and the identity headline: `msg_identity_translation` (the identity translation
+    stated on the tree, `identityParts`: needs only `NamesAgree` — placeholders of one name write the same),
+    `msg_identity_translation_po` (through `Msg.msgid` / `Msg.parts` as C11 states it, under C11's text and name
+    guards), `msg_identity_same_as_no_catalogue` (the same bytes as the run without a bundle).
   Outside: {plural} messages (MsgRender finds placeholders breadth-first over its own queue, the interpreter by
   depth in the node tree: the two agree by the C11msg correspondence, not by a theorem here).
 -/
@@ -349,6 +353,116 @@ theorem msg_unknown_placeholder (ts₁ ts₂ : List Msg.MsgPart) (n : Bytes) (hn
   exact h2
 end
 
+/-! ### the identity translation -/
+
+/-- the identity translation of a message, on the tree: its own text pieces and, for each placeholder, the
+    placeholder part of the name the tree carries (assigned by `setPlaceholderNames`) -/
+def identityParts : MsgParts → MParts
+  | .nil => .nil
+  | .text _ t r => .cons (.raw t) (identityParts r)
+  | .ph _ name _ r => .cons (.ph name) (identityParts r)
+  | .plural .. => .nil
+
+theorem flatT_identityParts : ∀ body, flatT (identityParts body) = true
+  | .nil => rfl
+  | .text _ _ r => by simpa [identityParts, flatT] using flatT_identityParts r
+  | .ph _ _ _ r => by simpa [identityParts, flatT] using flatT_identityParts r
+  | .plural .. => rfl
+
+/-- placeholders bearing one name write the same (C10 `names_distinct`: in a compiled message one name is one
+    source text; here only what is needed — the same OUTPUT) -/
+def NamesAgree (ρ : Bytes → Bytes) (R : List RPart) : Prop :=
+  ∀ n s s', RPart.ph n s ∈ R → RPart.ph n s' ∈ R → ρ s = ρ s'
+
+/-- Model/MsgRender: the identity translation renders what the source renders (on a sub-body of `R`) -/
+theorem renderTs_identityParts (src : MsgPhBody → Bytes) (ρ : Bytes → Bytes) (ν : Bytes → Int) (sel : Int → Int)
+    (R : List RPart) (hR : Msg.isFlat R = true) (hu : NamesAgree ρ R) :
+    ∀ (rs : MsgParts), flatBody rs = true → (∀ x ∈ toR src rs, x ∈ R) →
+      Msg.renderTs ρ ν sel R (toT (identityParts rs)) = some (Msg.renderSrcList ρ ν (toR src rs))
+  | .nil, _, _ => rfl
+  | .text _ t r, hf, hsub => by
+    have ih := renderTs_identityParts src ρ ν sel R hR hu r (by simpa [flatBody] using hf)
+      (fun x hx => hsub x (by simp [toR, hx]))
+    simp only [identityParts, toT, toR, Msg.renderTs, Msg.renderT, ih, Msg.renderSrcList, Msg.renderSrc]
+  | .ph _ name b r, hf, hsub => by
+    have ih := renderTs_identityParts src ρ ν sel R hR hu r (by simpa [flatBody] using hf)
+      (fun x hx => hsub x (by simp [toR, hx]))
+    have hmem : RPart.ph name (src b) ∈ R := hsub _ (by simp [toR])
+    obtain ⟨s', hs', hm'⟩ := Msg.findSrc_of_mem name (src b) R hmem
+    simp only [identityParts, toT, toR, Msg.renderTs, Msg.renderT, ih, Msg.renderSrcList, Msg.renderSrc,
+      Msg.placeholder_flat name R hR, hs', Option.map_some, hu name s' (src b) hm' hmem]
+  | .plural .., hf, _ => by simp [flatBody] at hf
+
+section
+variable (g : GEnv) (esc : Bool) (call : Registry.Tmpl → Run) (src : MsgPhBody → Bytes) (ρ : Bytes → Bytes)
+  (p id : Nat) (x y : Bytes) (z : Nat) (body : MsgParts) (ctx : Scope) (st : St) (hfb : flatBody body = true)
+  (hw : AllPh (fun b => Writes (execPh g esc call b) (push ctx st).1 (push ctx st).2.heap (ρ (src b))) body)
+  (hu : NamesAgree ρ (toR src body))
+  (b : MsgBundle) (hb : g.msgs = some b)
+include hfb hw hu hb
+
+/-- C11 `identity_translation` over `execCmd`, on the tree: with the identity translation installed the {msg}
+    command appends exactly the source rendering `Msg.renderSource` — which is what it appends without a
+    catalogue (`msg_identity_same_as_no_catalogue`) -/
+theorem msg_identity_translation (ν : Bytes → Int) (hid : b.message id = some (identityParts body)) :
+    (execCmd g esc call (.msg p id x y z body) ctx st).cls = .ok ∧
+    bufBytes (execCmd g esc call (.msg p id x y z body) ctx st).st.out =
+      bufBytes st.out ++ Msg.renderSource ρ ν (toR src body) := by
+  have h := execCmd_msg_eq_msgRender g esc call src ρ ν p id x y z body ctx st hfb hw
+  rw [hb] at h
+  simp only [hid] at h
+  have h2 := h (flatT_identityParts body)
+  unfold Msg.renderTranslated at h2
+  rw [renderTs_identityParts src ρ ν b.pluralCase (toR src body) (isFlat_toR src body) hu body hfb (fun _ h => h)] at h2
+  exact h2
+
+/-- … and through the PO layer, as C11 states it: the catalogue entry whose msgstr is the message's msgid
+    (`Msg.msgid`, split back into parts by `Msg.parts`: `newMessage [] [msgid]`), under C11's guards — no text run
+    contains something of the shape `{[A-Z0-9_]+}`, the names are in `[A-Z0-9_]+` -/
+theorem msg_identity_translation_po (ν : Bytes → Int)
+    (hguard : Msg.NoMatch (Msg.leadText (Msg.toNList (toR src body)))) (hok : Msg.FlatOK (Msg.toNList (toR src body)))
+    (ps : MParts) (hid : b.message id = some ps) (hft : flatT ps = true)
+    (hps : ∃ msgid, Msg.msgid (toR src body) = some msgid ∧ toT ps = Msg.newMessage [] [msgid]) :
+    (execCmd g esc call (.msg p id x y z body) ctx st).cls = .ok ∧
+    bufBytes (execCmd g esc call (.msg p id x y z body) ctx st).st.out =
+      bufBytes st.out ++ Msg.renderSource ρ ν (toR src body) := by
+  have hR := isFlat_toR src body
+  obtain ⟨mid, hmid, hps⟩ := hps
+  rw [C11.msgid_flat _ hR] at hmid
+  simp only [Option.some.injEq] at hmid
+  subst hmid
+  have h := execCmd_msg_eq_msgRender g esc call src ρ ν p id x y z body ctx st hfb hw
+  rw [hb] at h
+  simp only [hid] at h
+  have h2 := h hft
+  have hr : Msg.renderTranslated ρ ν b.pluralCase (toR src body) (toT ps) = some (Msg.renderSource ρ ν (toR src body)) := by
+    rw [hps]
+    show Msg.renderTs ρ ν b.pluralCase (toR src body) (Msg.liftParts (Msg.parts (Msg.writephList (toR src body)))) = _
+    rw [Msg.writephList_flat _ hR, C10.parts_writeFP _ hguard hok]
+    have := Msg.render_expected ρ ν b.pluralCase (toR src body) (toR src body)
+      (fun n => Msg.placeholder_flat n _ hR) hu (toR src body) [] hR (fun _ h => h)
+    simpa [Msg.renderSource] using this
+  rw [hr] at h2
+  exact h2
+end
+
+/-- the headline: a {msg} with the identity translation installed appends byte for byte what the same {msg}
+    appends without a catalogue (`g0` = `g` with no bundle; the placeholders are the same writers in both) -/
+theorem msg_identity_same_as_no_catalogue (g : GEnv) (esc : Bool) (call : Registry.Tmpl → Run) (src : MsgPhBody → Bytes)
+    (ρ : Bytes → Bytes) (p id : Nat) (x y : Bytes) (z : Nat) (body : MsgParts) (ctx : Scope) (st : St)
+    (hfb : flatBody body = true) (b : MsgBundle) (hb : g.msgs = some b) (hid : b.message id = some (identityParts body))
+    (hw : AllPh (fun b => Writes (execPh g esc call b) (push ctx st).1 (push ctx st).2.heap (ρ (src b))) body)
+    (hw0 : AllPh (fun b => Writes (execPh { g with msgs := none } esc call b) (push ctx st).1 (push ctx st).2.heap (ρ (src b))) body)
+    (hu : NamesAgree ρ (toR src body)) :
+    (execCmd g esc call (.msg p id x y z body) ctx st).cls = .ok ∧
+    (execCmd { g with msgs := none } esc call (.msg p id x y z body) ctx st).cls = .ok ∧
+    bufBytes (execCmd g esc call (.msg p id x y z body) ctx st).st.out =
+      bufBytes (execCmd { g with msgs := none } esc call (.msg p id x y z body) ctx st).st.out := by
+  have h1 := msg_identity_translation g esc call src ρ p id x y z body ctx st hfb hw hu b hb (fun _ => 0) hid
+  have h0 := execCmd_msg_eq_msgRender { g with msgs := none } esc call src ρ (fun _ => 0) p id x y z body ctx st hfb hw0
+  simp only at h0
+  exact ⟨h1.1, h0.1, by rw [h1.2, h0.2]⟩
+
 /-! ### non-vacuity: `{msg}<b>{$x}</b>{/msg}` (placeholders START_BOLD, X, END_BOLD) with the translation
     `{X}: {START_BOLD}{END_BOLD}` — the hypotheses are satisfiable (html tags and a print of a variable are
     writers) and the {msg} command appends the reordered values -/
@@ -375,5 +489,26 @@ example (call : Registry.Tmpl → Run) :
   have h := msg_translation_renders_segments exG true call exSrc exRho 0 7 [] [] 0 exBody [⟨0, false⟩] exSt (by decide) hw
     exBundle rfl [.ph [88], .text [58, 32], .ph [83], .ph [69]] rfl (by decide)
   exact h
+
+/-- the identity translation of the same message: `<b>&lt;</b>`, what it renders without a catalogue -/
+def exBundleId : MsgBundle := { message := fun _ => some (identityParts exBody), pluralCase := fun _ => 0 }
+def exGId : GEnv := { reg := [], globals := [], ij := none, msgs := some exBundleId, tbl := [], oblig := [] }
+
+theorem exNames : NamesAgree exRho (toR exSrc exBody) := by
+  intro n s s' h h'
+  simp only [toR, exBody, exSrc, List.mem_cons, RPart.ph.injEq, List.not_mem_nil, or_false] at h h'
+  rcases h with ⟨rfl, rfl⟩ | ⟨rfl, rfl⟩ | ⟨rfl, rfl⟩ <;> rcases h' with ⟨h1, rfl⟩ | ⟨h1, rfl⟩ | ⟨h1, rfl⟩ <;>
+    first | rfl | (exact absurd h1 (by decide))
+
+example (call : Registry.Tmpl → Run) :
+    (execCmd exGId true call (.msg 0 7 [] [] 0 exBody) [⟨0, false⟩] exSt).cls = .ok ∧
+    bufBytes (execCmd exGId true call (.msg 0 7 [] [] 0 exBody) [⟨0, false⟩] exSt).st.out =
+      [60, 98, 62, 38, 108, 116, 59, 60, 47, 98, 62] := by
+  have hw : AllPh (fun b => Writes (execPh exGId true call b) (push [⟨0, false⟩] exSt).1 (push [⟨0, false⟩] exSt).2.heap
+      (exRho (exSrc b))) exBody :=
+    ⟨htmlTag_writes _ _ _ _ _ _ _, print_var_writes exGId true call rfl 2 2 [120] (by decide) _ _ (.str [60]) [60]
+      rfl (fun h => by cases h) rfl, htmlTag_writes _ _ _ _ _ _ _, trivial⟩
+  exact msg_identity_translation exGId true call exSrc exRho 0 7 [] [] 0 exBody [⟨0, false⟩] exSt (by decide) hw exNames
+    exBundleId rfl (fun _ => 0) rfl
 
 end SoyVerif.Props.C11b
